@@ -52,7 +52,7 @@ class DataDir(object):
 
     def read_jsonfile(self, filename):
         path = self._path.joinpath(filename)
-        with open(path, 'r') as fp:
+        with open(path, 'r', encoding='utf-8') as fp:
             return json.load(fp)
 
     def _write_jsonfile(self, filename, data, sort_keys=True,
@@ -122,7 +122,7 @@ class DataDir(object):
 
     def read_txt(self, filename):
         path = self._path.joinpath(filename)
-        with open(path, 'r') as fp:
+        with open(path, 'r', encoding='utf-8') as fp:  # as it is written
             return fp.read()
 
     def sha256checksums(self):
